@@ -259,6 +259,16 @@ theorem Spec.step_axis {σ} (S : Sys σ) (a : Spec σ) (op : Op) (ax : Spec.Axis
   | clear =>
     exact ⟨⟨fun _ => ⟨rfl, rfl⟩, fun l hl => by simp [Spec.step, Spec.clear] at hl⟩,
       by simp [Spec.step, Spec.clear, times], by simp [Spec.step, Spec.clear, times]⟩
+  | simulateF t n =>
+    simp only [Spec.step, Spec.simulateF]
+    repeat' split
+    all_goals first | exact ax | exact ⟨⟨ax.inv.none_now, ax.inv.some_last⟩, ax.sorted, ax.bound⟩
+  | timeCourseF pts =>
+    simp only [Spec.step, Spec.timeCourseF]
+    repeat' split
+    all_goals first | exact ax | exact ⟨⟨ax.inv.none_now, ax.inv.some_last⟩, ax.sorted, ax.bound⟩
+  | scalePars kvs =>
+    exact ⟨⟨ax.inv.none_now, ax.inv.some_last⟩, ax.sorted, ax.bound⟩
 
 theorem Spec.run_axis {σ} (S : Sys σ) : ∀ (ops : List Op) (a : Spec σ), Spec.Axis a →
     Spec.Axis (Spec.run S a ops).1
